@@ -82,6 +82,9 @@ pub struct Node {
     pub rng: Arc<RngShared>,
     pub model_rs: Option<Vec<u8>>,
     pub rs_suspended: bool,
+    /// while suspended: the values get_remote_static() may legitimately show (the value before
+    /// the failed read, or the key the rejected message's 's' field authentically decrypts to)
+    pub rs_allowed: Vec<Option<Vec<u8>>>,
     pub sl_next: u64,
     pub written: Vec<usize>,
     pub send_tainted: bool,
@@ -322,6 +325,11 @@ impl World {
                 (!p.needs_local_static(nc.initiator) || nc.s_priv.is_some())
                     && (!p.needs_remote_static(nc.initiator) || nc.rs_pub.is_some())
                     && nc.deny.is_none()
+                    && nc.psks.iter().all(|k| !k.at_boot || (k.idx as usize) < 10)
+                    && {
+                        let mut seen = std::collections::BTreeSet::new();
+                        nc.psks.iter().filter(|k| k.at_boot).all(|k| seen.insert(k.idx))
+                    }
             },
             None => false,
         };
@@ -391,6 +399,7 @@ impl World {
             rng,
             model_rs,
             rs_suspended: false,
+            rs_allowed: vec![],
             sl_next: 0,
             written: vec![],
             send_tainted: false,
@@ -451,6 +460,18 @@ impl World {
             match ev.kind {
                 CipherEvKind::RekeyEncrypt => {
                     self.stats.probe("rekey-encrypt-at-reserved-nonce");
+                    // the rekey's own encryption occupies (key, 2^64-1): nothing else may
+                    let key = (ev.key, ev.nonce);
+                    match self.ledger.get(&key) {
+                        Some((ad, data, who)) if (*ad, *data) != (ev.ad, ev.data) => {
+                            let detail = format!("key {}.. nonce 2^64-1 used by node {} for a message and by rekey", hex::encode(&ev.key[..4]), who);
+                            self.flag(&["C06", "C09"], "key-nonce-reuse", &format!("{site}/reserved-nonce"), &detail);
+                        },
+                        Some(_) => {},
+                        None => {
+                            self.ledger.insert(key, (ev.ad, ev.data, node_idx as u8));
+                        },
+                    }
                 },
                 CipherEvKind::Decrypt => {
                     if ev.nonce == u64::MAX {
@@ -471,7 +492,10 @@ impl World {
                             "cipher asked to encrypt with nonce 2^64-1 outside rekey",
                         );
                     }
-                    if tainted || self.harness_nonce_call || self.cfg.rng_mode != RngMode::Stream {
+                    // reuse the harness itself causes (explicit stateless nonces, sending nonce
+                    // moved backwards, replayed ephemerals) is not snow's - except at 2^64-1,
+                    // which no caller action can legitimately reach
+                    if (tainted || self.harness_nonce_call || self.cfg.rng_mode != RngMode::Stream) && ev.nonce != u64::MAX {
                         continue;
                     }
                     let key = (ev.key, ev.nonce);
@@ -563,6 +587,22 @@ impl World {
                 );
             } else if expect.is_some() {
                 self.stats.probe("remote-static-verified");
+            }
+        } else if node.shadow.is_some() && node.rs_suspended && matches!(node.st, St::Hs(_)) {
+            if !node.rs_allowed.contains(&rs) {
+                let p = node.shadow.as_ref().unwrap().proto.clone();
+                self.flag(
+                    &["C17"],
+                    "remote-static-after-failed-read",
+                    &format!("hs/{}/{}", p.dh.name(), what),
+                    &format!(
+                        "after a rejected message get_remote_static={:?}, which is neither the value before the failed read nor the key the message authentically carries ({})",
+                        rs.as_ref().map(|r| (r.len(), hex::encode(&r[..r.len().min(6)]))),
+                        p.name
+                    ),
+                );
+            } else {
+                self.stats.probe("remote-static-checked-after-failed-read");
             }
         }
     }
@@ -745,6 +785,7 @@ impl World {
                 rng: RngShared::new(0, RngMode::Stream),
                 model_rs: None,
                 rs_suspended: false,
+                rs_allowed: vec![],
                 sl_next: 0,
                 written: vec![],
                 send_tainted: false,
@@ -1295,15 +1336,14 @@ impl World {
         let mut model = shadow.clone();
         let mut mres: Option<Result<Vec<u8>, RefErr>> = None;
         if state_ok && bytes.len() <= MAXMSG {
-            if !shadow.psks_present_for_next() {
-                whys.push(Why::MissingPsk);
-            } else {
-                let r = model.read(bytes);
-                match &r {
-                    Err(RefErr::Dh) => whys.push(Why::Dh),
-                    Err(_) => whys.push(Why::Crypto),
-                    Ok(_) => {},
-                }
+            let r = model.read(bytes);
+            match &r {
+                Err(RefErr::MissingPsk) => whys.push(Why::MissingPsk),
+                Err(RefErr::Dh) => whys.push(Why::Dh),
+                Err(_) => whys.push(Why::Crypto),
+                Ok(_) => {},
+            }
+            if !matches!(r, Err(RefErr::MissingPsk)) {
                 mres = Some(r);
             }
         }
@@ -1443,7 +1483,16 @@ impl World {
                     self.flag(&["C07", "C11"], "observables-changed-by-failed-read", &site, &format!("{e:?}: turn {}->{} fin {}->{} hash_changed={}", before.0, after.0, before.1, after.1, before.3 != after.3));
                 }
                 if shadow.next_has_s() && state_ok {
+                    if !node.rs_suspended {
+                        node.rs_allowed.clear();
+                        node.rs_allowed.push(shadow.rs.clone());
+                    }
                     node.rs_suspended = true;
+                    // `model` ran the same read: if the 's' field decrypted authentically
+                    // before the failure, its rs holds that key
+                    if !node.rs_allowed.contains(&model.rs) {
+                        node.rs_allowed.push(model.rs.clone());
+                    }
                 }
                 if whys.is_empty() {
                     let mut props = vec!["C02", "C01"];
@@ -1882,14 +1931,18 @@ impl World {
             St::Tr(t) => Some(guarded(|| match which {
                 RekeyKind::Outgoing => t.rekey_outgoing(),
                 RekeyKind::Incoming => t.rekey_incoming(),
-                RekeyKind::ManualI(id) => t.rekey_initiator_manually(&Self::manual_key(session, 0, id)),
-                RekeyKind::ManualR(id) => t.rekey_responder_manually(&Self::manual_key(session, 1, id)),
+                RekeyKind::ManualI(id) if id % 2 == 0 => t.rekey_initiator_manually(&Self::manual_key(session, 0, id)),
+                RekeyKind::ManualI(id) => t.rekey_manually(Some(&Self::manual_key(session, 0, id)), None),
+                RekeyKind::ManualR(id) if id % 2 == 0 => t.rekey_responder_manually(&Self::manual_key(session, 1, id)),
+                RekeyKind::ManualR(id) => t.rekey_manually(None, Some(&Self::manual_key(session, 1, id))),
             })),
             St::Sl(t) => Some(guarded(|| match which {
                 RekeyKind::Outgoing => t.rekey_outgoing(),
                 RekeyKind::Incoming => t.rekey_incoming(),
-                RekeyKind::ManualI(id) => t.rekey_manually(Some(&Self::manual_key(session, 0, id)), None),
-                RekeyKind::ManualR(id) => t.rekey_manually(None, Some(&Self::manual_key(session, 1, id))),
+                RekeyKind::ManualI(id) if id % 2 == 0 => t.rekey_manually(Some(&Self::manual_key(session, 0, id)), None),
+                RekeyKind::ManualI(id) => t.rekey_initiator_manually(&Self::manual_key(session, 0, id)),
+                RekeyKind::ManualR(id) if id % 2 == 0 => t.rekey_manually(None, Some(&Self::manual_key(session, 1, id))),
+                RekeyKind::ManualR(id) => t.rekey_responder_manually(&Self::manual_key(session, 1, id)),
             })),
             _ => None,
         };
